@@ -51,12 +51,12 @@ BUILT = {
     design="3/C14"),
   "C05": dict(
     technique="exhaustive enumeration of a finite decision grid (now x zone x offset x spelling x delta; malformed classes) on the real evaluator and on clean(), vs. integer civil-time reference",
-    text="Every combination of 9 current instants (each written in 3 zones), every UTC offset from -12:00 to +14:00 (15-minute steps quick, 1-minute steps thorough) in both spellings and 25 second-resolution deltas around the boundary is decided twice by the real code (TimeLimitedEvaluator::is_removal and clean on a probe) and compared with an integer-arithmetic reference that does not use chrono; every malformed `to` class and unparseable offset is crossed with all offsets and a far-future now; monotonicity is checked on a multi-element document over all ordered pairs of a now-grid.",
+    text="Every combination of 9 current instants (each written in 3 zones), every UTC offset from -12:00 to +14:00 (15-minute steps quick, 1-minute steps thorough) in both spellings and 25 second-resolution deltas around the boundary is decided twice by the real code (TimeLimitedEvaluator::is_removal and clean on a probe) and compared with an integer-arithmetic reference that does not use chrono; every malformed `to` class and unparseable offset is crossed with all offsets and a far-future now; monotonicity is checked on a multi-element document over all ordered pairs of a now-grid. Every probe stands between two decoy elements (same values under other attribute names) so that a decision cannot leak between elements, and the whole grid is repeated in child processes under three other time zones.",
     note="Trusted: days-from-civil arithmetic (60 lines). chrono leniencies not named by the statement (second 60, unpadded fields, '+09') are not asserted either way.",
     design="3/C05"),
   "C06": dict(
     technique="exhaustive enumeration of a finite product (all target subsets x name forms x skip layouts x orders x tag-name configurations x element tags) on clean(); command-line rows on the real binary",
-    text="All subsets of a name pool (prefixes, superstrings, case variants, empty string, every default string shown by --help) are crossed with every way the element can spell its name and carry or quote `skip`, under four tag-name configurations and four element tag names; each probe is decided by clean() and compared with the stated rule. The rows 'no target option', 'flag', 'config file' run the real binary with an oracle that does not go through the library.",
+    text="All subsets of a name pool (prefixes, superstrings, case variants, empty string, every default string shown by --help) are crossed with every way the element can spell its name and carry or quote `skip`, under four tag-name configurations and four element tag names, each probe between two decoy elements; each probe is decided by clean() and compared with the stated rule (several `name` attributes: the first decides). The rows 'no target option', 'flag', 'config file' run the real binary with an oracle that does not go through the library.",
     note="Trusted: the reference tag reader and rule (shared with C02-C04). The CLI rows need the binary built from /repo's tree.",
     design="3/C06"),
   "C11": dict(
@@ -76,12 +76,12 @@ BUILT = {
     design="3/C13"),
   "C20": dict(
     technique="exhaustive enumeration of a finite product of CLI option menus and environments; the real binary is executed for every combination and compared byte for byte with the in-process library",
-    text="Every combination of document, mode, input route (file / stdin pipe), output route (stdout / new file / in place), default or custom delimiters and tag names, offset, current instant, target source (none / flags / config file / both / file with empty line), TZ and locale runs the real executable; bytes, exit status and stdout emptiness are compared with the library result for the documented defaults.",
+    text="Every combination of document, mode, input route (file / stdin pipe), output route (stdout / new file / in place), default or custom delimiters and tag names, offset, current instant, target source (none / flags / config file / both / file with empty line), TZ and locale runs the real executable; bytes, exit status and stdout emptiness are compared with the library result for the documented defaults. Documents larger than any I/O buffer (to 220 KiB, multi-byte, three byte alignments) go through every input/output route as well.",
     note="Trusted: the library (its own properties are C01-C19) as oracle for the wrapper; tzdata in the sandbox.",
     design="3/C20"),
   "C15": dict(
     technique="bounded-exhaustive explicit-state enumeration of AST documents; list output vs reference regions, plus a model-free list<->clean link and purity re-execution",
-    text="For every G-ast tree within the C15 restrictions the Ready items of list (JSON and pretty) must correspond one-to-one and in order to the reference regions (count, first/last line, highlighted text); independently of the model, cutting the listed regions (located only by their line range and marker columns) out of the source must give clean's non-whitespace text; list is re-executed (twice, and around a clean on the same Rc<String>) to assert purity.",
+    text="For every G-ast tree within the C15 restrictions the Ready items of list (JSON and pretty) must correspond one-to-one and in order to the reference regions (count, first/last line, highlighted text); independently of the model, cutting the listed regions (located only by their line range and marker columns) out of the source must give clean's non-whitespace text; list is re-executed (twice, around a clean on the same Rc<String>, and under two further configurations on the same thread) to assert purity; every document is also listed with CRLF line ends (line numbers must not drift).",
     note="Trusted: the pretty/JSON parsers of the harness and the reference regions (validated by construction in C02). ASCII delimiters only (marker columns are defined for ASCII text left of the marker).",
     design="3/C15"),
   "C16": dict(
